@@ -26,6 +26,9 @@ def run_status_family(tier="quick", seed=0):
     proj = os.path.join(root, "proj")
     os.makedirs(proj)
     open(os.path.join(proj, "a.py"), "w").write("x = sum([i for i in range(3)])\n")
+    at_proj = "@scoped-pkg"          # relative to the working directory of the family (root)
+    os.makedirs(os.path.join(root, at_proj))
+    open(os.path.join(root, at_proj, "a.py"), "w").write("x = 1\n")
     sarif = os.path.join(root, "s.sarif")
     json.dump({"runs": [{"tool": {"driver": {"name": "Semgrep OSS"}}, "results": []}]}, open(sarif, "w"))
     sarif2 = os.path.join(root, "s2.sarif")
@@ -36,6 +39,8 @@ def run_status_family(tier="quick", seed=0):
         ("missing target directory", [os.path.join(root, "nope"), "--output", out] + inc, 1),
         ("empty directory operand", ["", "--output", out] + inc, 1),
         ("completed dry run", [proj, "--output", out, "--dry-run"] + inc, 0),
+        ("target directory whose name starts with @", [at_proj, "--output", out, "--dry-run"] + inc, 0),
+        ("missing target directory whose name starts with @", ["@missing-dir", "--output", out] + inc, 1),
         ("completed dry run, verbose", [proj, "--output", out, "--dry-run", "--verbose"] + inc, 0),
         ("report into a missing directory", [proj, "--output", os.path.join(root, "no", "dir", "o.codetf"), "--dry-run"] + inc, 2),
         ("report path is a directory", [proj, "--output", root, "--dry-run"] + inc, 2),
